@@ -47,6 +47,8 @@ HERE = os.path.dirname(os.path.abspath(__file__))
 if HERE not in sys.path:
     sys.path.insert(0, HERE)
 
+os.environ.setdefault('OPENBLAS_NUM_THREADS', '1')   # tiny matrices: threads only add latency
+os.environ.setdefault('OMP_NUM_THREADS', '1')
 import numpy as np
 import scipy.linalg as sla
 
